@@ -183,19 +183,24 @@ def build(rng, img, base, data_end, d, form, ln, variant, fixed_reserved=(), min
             "filler": filler, "fits": d <= 0, "value": bytes(value), "behind": max(0, phys - data_end)}
 
 
-def enumerate_specs(rng, form, tier, ngeo, extra=6):
+def enumerate_specs(rng, form, tier, ngeo, extra=6, heavy=()):
     """-> list of (L, d, [(variant, geometry index), ...] candidates, full): every L of the form x every offset; for
     boundary lengths (and `extra` random ones, and every length in the thorough tier) the full cross product of
-    variants x geometries, otherwise one random feasible (variant, geometry) pair"""
-    pairs = [(v, g) for v in VARIANTS for g in range(ngeo)]
+    variants x geometries, otherwise one random feasible (variant, geometry) pair.  In the quick tier the geometries
+    listed in `heavy` (large memories, expensive to read) take part in every second (variant, offset) combination of the
+    cross product only and in a third of the random picks."""
+    pairs = [(vi, g) for vi in range(len(VARIANTS)) for g in range(ngeo)]
     full_l = set(BOUNDARY[form])
     full_l.update(rng.sample(list(lengths(form)), extra))
+    quick = tier == "quick"
     out = []
     for ln in lengths(form):
-        full = tier != "quick" or ln in full_l
+        full = not quick or ln in full_l
         for d in OFFSETS:
-            cand = list(pairs)
-            if not full:
+            if full:
+                cand = [(VARIANTS[vi], g) for vi, g in pairs if not (quick and g in heavy and (vi + d) % 2)]
+            else:
+                cand = [(VARIANTS[vi], g) for vi, g in pairs if not (g in heavy and rng.random() < 0.67)]
                 rng.shuffle(cand)
             out.append((ln, d, cand, full))
     return out
